@@ -3,6 +3,10 @@
 # the property's check must report a VIOLATION there (and the canaries/known findings must still be seen).
 # usage: selftest/run.sh [Cxx ...]
 HERE=$(cd "$(dirname "$0")/.." && pwd)
+# A change that breaks a property usually breaks many obligations at once; each of them would burn the full solver
+# budget (and the second round) before being reported. For the corpus a short budget and no second round are enough:
+# a mutant counts as caught by its first VIOLATION line. (The registered quick/thorough commands use the full budgets.)
+export VC_TIMEOUT=${SELFTEST_TIMEOUT:-12} VC_NORETRY=1
 fail=0
 for p in "$HERE"/selftest/mutants/*.patch "$HERE"/seeded/*/patch.diff; do
   case "$p" in */patch.diff) id=$(basename "$(dirname "$p")" | cut -d- -f1); label="seeded/$(basename "$(dirname "$p")")";; *) id=$(basename "$p" | cut -d- -f1); label=$(basename "$p");; esac
